@@ -67,6 +67,20 @@ class Row:
             self.res.ok()
 
 
+def _flat(v):
+    """all nested tuple terms of a value (to ask whether a term occurs inside it)"""
+    out = set()
+    st = [v]
+    while st:
+        x = st.pop()
+        if isinstance(x, Poly):
+            st.extend(x.atoms())
+        elif isinstance(x, tuple):
+            out.add(x)
+            st.extend(x)
+    return out
+
+
 def _final_len(I, lp=None):
     """value of the LEN store that dominates every normal return (None if none / ambiguous)"""
     ls = len_stores(I)
@@ -972,16 +986,33 @@ def _tempvalue_rows(res, ctx, ctors, ctor_by_adt):
 # ---------------------------------------------------------------------------------------------------- swap_unchecked: three dispatch arms
 
 def _swap_rows(res, ctx, arms):
-    p = "any_value::AnyValueTypelessMut::swap_unchecked"
-    for tt, I in arms(p):
-        row = Row(res, ctx, "swap_unchecked", p, tt, I)
+    fx = ctx.fx
+    default = "any_value::AnyValueTypelessMut::swap_unchecked"
+    # the default method and every override of it (an impl may bring its own swap)
+    targets = [(default, None)]
+    for im in fx.impls_of("any_value::AnyValueTypelessMut"):
+        for it in im["items"]:
+            if it["name"] == "swap_unchecked":
+                # is the implementing type statically typed or erased?
+                erased = None
+                for im2 in fx.impls_of("any_value::AnyValueSizeless"):
+                    if im2["self_ty"].get("s") == im["self_ty"].get("s"):
+                        for it2 in im2["items"]:
+                            if it2["name"] == "Type" and "ty" in it2:
+                                erased = it2["ty"].get("path") == "any_value::Unknown"
+                targets.append((it["path"], erased))
+    for p, fixed_self in targets:
+      for tt, I in arms(p):
+        row = Row(res, ctx, "swap_unchecked" + ("" if p == default else ":" + (ctx.fn(p).get("impl_self_ty", {}).get("path", "?").split("::")[-1])), p, tt, I)
         sw = I.all_effects(("SWAP",))
         casts = I.all_effects(("UNCHECKED_CAST",))
         unk = [e for e in I.all_effects(("UNKNOWN",))]
         keys = sorted(tt)
-        self_erased = tt.get("<Self as any_value::AnyValueSizeless>::Type")
+        self_erased = tt.get("<Self as any_value::AnyValueSizeless>::Type") if fixed_self is None else fixed_self
         OT = "<%s as any_value::AnyValueSizeless>::Type" % ctx.tparam(p, -1)
         other_erased = tt.get(OT)
+        if fixed_self is not None and other_erased is None and len(tt) == 1:
+            other_erased = list(tt.values())[0]
         if len(sw) != 1:
             row.fail("expected exactly one swap primitive, found %d (%s)" % (len(sw), [u["what"] for u in unk][:2]))
             row.done()
@@ -1097,6 +1128,51 @@ def _misc_rows(res, ctx, arms):
                     row.fail("dropping the vector destroys %s elements from slot %s, expected all LEN elements from slot 0" % (ds[0]["n"], s[1] if s else None), ds[0])
             if fl != Poly():
                 row.fail("the length is not zeroed before the elements are destroyed", st)
+            row.done()
+    # creating a range handle reserves nothing: the only growth of a splice is the one in Splice::drop (start + k + tail); a reservation at the public entry
+    # (against the full current length) over-reserves and panics on a fixed-capacity backend although the result fits
+    for p in ("any_vec::AnyVec::splice", "any_vec_typed::AnyVecTyped::splice", "any_vec::AnyVec::drain", "any_vec_typed::AnyVecTyped::drain"):
+        for tt, I in arms(p):
+            row = Row(res, ctx, "range-entry:" + p.split("::")[-1], p, tt, I)
+            rs = I.all_effects(("RESERVE",))
+            if rs:
+                row.fail("capacity is requested (%s by %s) when the handle is created: the reservation belongs to the handle's destructor, where the removed "
+                         "range is taken into account" % (rs[0]["how"], rs[0]["n"]), rs[0], "reserve")
+            row.done()
+    # dropping an owning element pointer (a drained / spliced-out item that was not consumed): whenever the vector has a destructor, exactly this element is
+    # destroyed, on every path (decided under the entry fact `drop_fn is Some`, so the None arm is pruned) - zero-sized and drop-less-looking sizes included
+    dpp = None
+    for im in fx.impls_of("core::ops::Drop"):
+        if im["self_ty"].get("path") == "element::ElementPointer":
+            dpp = im["items"][0]["path"]
+    if dpp is None:
+        res.coverage_lost("element::ElementPointer", "Drop impl not found")
+    for tt0, I0 in (arms(dpp) if dpp else [])[:1]:
+        datoms = []
+        for e in I0.all_effects(("SWITCH",)):
+            d = e["discr"]
+            if isinstance(d, Poly):
+                for a in d.atoms():
+                    if isinstance(a, tuple) and a[0] == "discr" and "drop_fn" in repr(a) and a not in datoms:
+                        datoms.append(a)
+        if len(datoms) != 1:
+            row = Row(res, ctx, "element-drop", dpp, tt0, I0)
+            row.fail("dropping an element pointer does not consult the vector's destructor (drop_fn)")
+            row.done()
+            continue
+        for tt, I in ctx.arms(dpp, entry_facts=[("eq0", Poly.atom(datoms[0]) - ONE)]) or []:
+            row = Row(res, ctx, "element-drop", dpp, tt, I)
+            ds = I.all_effects(("DESTROY",))
+            el = ("init", (("P", 1), ("element",)), 0)
+            good = [d for d in ds if as_poly(d["n"]) == ONE and el in _flat(d["ptr"])]
+            if len(ds) != 1 or not good:
+                row.fail("an unconsumed element must be destroyed by one destructor call over exactly this element (found %s)" % [(str(d["ptr"]), str(d["n"])) for d in ds])
+            else:
+                for r in I.all_effects(("RETURN",)):
+                    if not every_path_to(I, r.gid, lambda g: g == good[0].gid):
+                        row.fail("a path through the destructor of an element pointer returns without destroying the element although the vector has a destructor "
+                                 "(the element is leaked: it is no longer reachable through the vector)", r, "all-paths")
+                        break
             row.done()
     # AnyVec::get_unchecked{,_mut}: the element handle points at slot `index` of this vector
     for p in ("any_vec::AnyVec::get_unchecked", "any_vec::AnyVec::get_unchecked_mut"):
